@@ -138,7 +138,11 @@ func (e *Env) eval(x Expr) Val {
 					et = types.Typ[types.Byte]
 				}
 			}
-			return Val{T: SeqNth(base.T, idx.T), Typ: et}
+			r := SeqNth(base.T, idx.T)
+			if e.inQuant == 0 {
+				e.addSide(fc0(e).objInvFact(e.heap, e.alloc, r, et))
+			}
+			return Val{T: r, Typ: et}
 		}
 		if base.Typ != nil {
 			if mt, ok := base.Typ.Underlying().(*types.Map); ok {
@@ -195,6 +199,8 @@ func (e *Env) eval(x Expr) Val {
 	e.fail(x.exprPos(), "unsupported expression %T", x)
 	return Val{}
 }
+
+func fc0(e *Env) *FuncCtx { return e.fc }
 
 func (e *Env) evalIdent(x *EIdent) Val {
 	if v, ok := e.vars[x.Name]; ok {
@@ -462,8 +468,29 @@ func (fc *FuncCtx) readField(h *Heap, alloc *Term, st types.Type, f *types.Var, 
 	v := h.read(fc.d, key, s, ref)
 	if e != nil && alloc != nil {
 		e.addSide(fc.wellFormed(v, f.Type(), alloc))
+		if e.inQuant == 0 {
+			e.addSide(fc.objInvFact(h, alloc, v, f.Type()))
+		}
 	}
 	return v
+}
+
+// objInvFact: v != nil ==> inv(v), for pointer types with a declared object invariant.
+func (fc *FuncCtx) objInvFact(h *Heap, alloc *Term, v *Term, t types.Type) *Term {
+	oi := fc.u.objInvFor(t)
+	if oi == nil || v.Sort != SInt {
+		return TTrue
+	}
+	if _, lit := isIntLit(v); lit {
+		return TTrue
+	}
+	key := "objinv:" + v.S + fmt.Sprintf("@%p", h)
+	if fc.unfolded[key] {
+		return TTrue
+	}
+	fc.unfolded[key] = true
+	env := &Env{fc: fc, heap: h, oldHeap: h, alloc: alloc, oldAlloc: alloc, vars: map[string]Val{oi.Param: {T: v, Typ: t}}}
+	return Implies(Not(Eq(v, IntLit(0))), env.evalBool(oi.E))
 }
 
 // wellFormed: references held by a value are allocated (strictly below the allocation mark).
